@@ -17,3 +17,8 @@ def check(ctx: Ctx) -> None:
     A.r_raise_inventory(ctx, "R09.3", classes={"PoolIsClosed"}, guards=set())
     SP.r_unreachable_lock_raise(ctx, "R04.2")
     S.r_handoff(ctx, "R02.1")
+    # gather_and_close finds a task only through the three registries: at every point where the task can be suspended or runs
+    # user code it is filed in one of them (life-cycle typestate, `loc` facet)
+    from .lifecycle import check_lifecycle
+    ctx.rep.rule("R08.6", "a task is filed in one of the registries gather_and_close gathers at every suspension / user-code step of its life cycle")
+    check_lifecycle(ctx, "R08.6", {"loc"})
